@@ -41,6 +41,21 @@ CHECKS = {
              "signal = no logical deadlock, tokens conserved) and hundreds of scripted queue shapes where the exact set of "
              "returning waiters is compared with a reference model after every signal/broadcast/clock step",
         ref="DESIGN.md §5 C05"),
+    "C09": dict(
+        technique="runtime monitoring: per-epoch set/observer ledger (single winner, observers read the winner's bytes, "
+                  "callback-before-waiters), reset cycles, logical-deadlock supervisor, delay injection, ASan/TSan builds",
+        category="exploration",
+        text="held on the executions produced: thousands of ready epochs of eventuals (all value sizes incl. 0) and futures "
+             "(0..64 compartments, with/without callback) with racing setters, blocked and late waiters, testers of every "
+             "caller kind, under delay injection and sanitizers",
+        ref="DESIGN.md §5 C09"),
+    "C10": dict(
+        technique="runtime monitoring: reader/writer presence counters checked on entry and exit of every critical section, "
+                  "scripted reader-inclusion phases decided by the logical-deadlock supervisor, delay injection, ASan/TSan",
+        category="exploration",
+        text="held on the executions produced: soups of 2-25 ULT/external lockers with 5-90% writes on random configurations "
+             "and scripted phases where a second reader must enter while the first still holds the lock",
+        ref="DESIGN.md §5 C10"),
 }
 
 
